@@ -1,6 +1,11 @@
 use crate::core::*;
 
 pub mod c01;
+pub mod c02;
+pub mod c03;
+pub mod c04;
+pub mod c06;
+pub mod pairs;
 pub mod util;
 
 pub type PropResult = Result<(PropMeta, RunOutput), String>;
@@ -8,6 +13,10 @@ pub type PropResult = Result<(PropMeta, RunOutput), String>;
 pub fn run(ctx: &Ctx) -> PropResult {
     match ctx.prop {
         "C01" => c01::run(ctx),
+        "C02" => c02::run(ctx),
+        "C03" => c03::run(ctx),
+        "C04" => c04::run(ctx),
+        "C06" => c06::run(ctx),
         other => Err(format!("no monitor for {}", other)),
     }
 }
